@@ -327,3 +327,39 @@ Proof. apply (inv_nd _ _ (run_inv ops)). Qed.
 Lemma sources_exact ops s r :
   In s (sources_of (run ops) r) <-> In (s, r) (spec_run ops).
 Proof. apply (inv_src _ _ (run_inv ops)). Qed.
+
+(* ---- the RIS client glue *)
+Lemma client_run_gen evs : forall a, fold_left client_step evs a = fold_left spec_step (map glue evs) a.
+Proof.
+  induction evs as [|e evs IH]; intros a; cbn [fold_left map]; [reflexivity|].
+  rewrite IH. destruct e; reflexivity.
+Qed.
+
+Lemma client_events_consistent evs r :
+  In r (rib (run_events evs)) <-> exists c, In (c, r) (client_run evs).
+Proof.
+  unfold run_events, client_run. rewrite client_run_gen. apply present_iff_advertised.
+Qed.
+
+(* ---- presence is per route identity: what happens to other routes never matters *)
+Lemma about_gen r ops : forall a a',
+  (forall s, In (s, r) a <-> In (s, r) a') ->
+  forall s, In (s, r) (fold_left spec_step ops a) <-> In (s, r) (fold_left spec_step (filter (about r) ops) a').
+Proof.
+  induction ops as [|o ops IH]; intros a a' H; cbn [fold_left filter]; [exact H|].
+  destruct (about r o) eqn:Ab; cbn [fold_left]; apply IH; intros s.
+  - destruct o as [s0 r0|s0 r0|s0].
+    + rewrite !spec_add_In, H. tauto.
+    + rewrite !spec_remove_In, H. tauto.
+    + rewrite !spec_drop_In, H. tauto.
+  - destruct o as [s0 r0|s0 r0|s0]; cbn in Ab; try discriminate; apply N.eqb_neq in Ab.
+    + rewrite spec_add_In, H. split; [intros [E|E]; auto; inversion E; congruence|auto].
+    + rewrite spec_remove_In, H. split; [tauto|]. intros E. split; auto. intros E2. inversion E2. congruence.
+Qed.
+
+Lemma presence_per_route ops r :
+  In r (rib (run ops)) <-> In r (rib (run (filter (about r) ops))).
+Proof.
+  rewrite !present_iff_advertised. unfold advertised, spec_run.
+  split; intros [s H]; exists s; [apply (about_gen r ops [] []) in H|apply (about_gen r ops [] [])]; auto; tauto.
+Qed.
